@@ -106,6 +106,24 @@ fn bytes_op(buf: &mut Vec<u8>, op: &ForgeOp) {
     }
 }
 
+/// Damage of a stored blob (torn / short / lost-sector write, bit rot): byte ops only.
+pub fn damage(bytes: &[u8], op: &ForgeOp) -> Option<Vec<u8>> {
+    let mut b = bytes.to_vec();
+    match op {
+        ForgeOp::FlipBit { inner, .. } | ForgeOp::Truncate { inner, .. } | ForgeOp::Extend { inner, .. } | ForgeOp::ZeroWindow { inner, .. } => {
+            if *inner {
+                let (dv, iv, mut ib) = split_envelope(&b)?;
+                bytes_op(&mut ib, op);
+                b = join_envelope(dv, iv, ib);
+            } else {
+                bytes_op(&mut b, op);
+            }
+            Some(b)
+        }
+        _ => None,
+    }
+}
+
 /// Re-sign `by`'s own result set (and only that) so that the data is consistent for the attacker.
 pub fn resign_own(w: &World, data: &mut InterpreterData, by: usize, particle: &str) {
     use air_interpreter_signatures::PeerCidTracker;
